@@ -30,6 +30,15 @@
 (* SCTLR_ELx.{A,SA} = 0, and a misaligned branch target is simply the next *)
 (* pc.  Memory ordering, exclusives monitors and prefetch hints have no    *)
 (* effect on the sequential state and are executed as plain accesses/NOP.  *)
+(*                                                                         *)
+(* Classes: add/sub (immediate, shifted register, extended register, with  *)
+(* and without flags), move wide, logical (shifted register, immediate:    *)
+(* the MOV aliases live here), load/store (unsigned offset, unscaled,      *)
+(* pre/post-index, register offset, pair, ordered, RCpc unscaled, literal; *)
+(* general and SIMD&FP scalar registers), branches (B, BL, B.cond, CBZ,    *)
+(* CBNZ, TBZ, TBNZ, BR, BLR, RET), NOP/PRFM, and the Advanced SIMD integer *)
+(* forms the lifter dispatches under ADD/SUB/MOV: ADD/SUB (vector and      *)
+(* scalar), ORR (vector) = MOV, INS, UMOV, DUP (scalar).                   *)
 (***************************************************************************)
 EXTENDS BV
 
